@@ -1,4 +1,5 @@
 //! Harness: drives the real lsm-tree and records traces for the TLA+ trace specs.
+mod conc;
 mod corrupt;
 mod crashopen;
 mod exec;
@@ -212,6 +213,7 @@ fn main() {
         Some("replay") => replay(&args[2..]),
         Some("tablecase") => tablecase::run(&args[2..]),
         Some("corrupt") => corrupt::run(&args[2..]),
+        Some("conc") => conc::run(&args[2..]),
         Some("crashopen") => crashopen::run(&args[2..]),
         _ => {
             eprintln!("usage: harness replay --in F --out F [...]");
